@@ -6,6 +6,9 @@ import (
 	"math/rand"
 	"strings"
 
+	sdkmath "cosmossdk.io/math"
+	sdk "github.com/cosmos/cosmos-sdk/types"
+
 	"orbverif/fw"
 	"orbverif/run"
 	"orbverif/spec"
@@ -257,6 +260,14 @@ func CheckC01(e *fw.Env, l *Lab) {
 			aftermath(e, l, ctx, t, hs)
 		}
 	}
+	// histories in which the statistics of a route cannot be updated any more (cumulative total
+	// at the 256-bit limit): the transfer itself must still be all-or-nothing
+	if e.Shard == 2%e.Shards {
+		overflowHistoryC01(e, l)
+	}
+	if e.Shard == 3%e.Shards {
+		genesisNearLimitC01(e, l)
+	}
 	// Mode C: the orbiter middleware directly around ICS-20 (no blockibc), same oracle.
 	nc := e.N(1500, 60000)
 	mod := l.W.OrbiterStack()
@@ -272,5 +283,75 @@ func CheckC01(e *fw.Env, l *Lab) {
 		if IsOrbiterReceiver(t.Receiver) || o.Success() {
 			e.Res.Sig("C|%s|%s|%s|%s", hs.RecvCls, hs.RouteCls, hs.FeeCls, outcomeClass(o))
 		}
+	}
+}
+
+// overflowHistoryC01: 2^255 ubig twice over one route (the recipient sends the coins out again in
+// between), with and without a fee on the second transfer.
+func overflowHistoryC01(e *fw.Env, l *Lab) {
+	w := l.W
+	for _, withFee := range []bool{false, true} {
+		ctx, _ := l.Base.CacheContext()
+		rcpt := w.K("rcpt1")
+		pair := w.Channels[0]
+		amt := pow2(255)
+		for i := 0; i < 3; i++ {
+			s := &spec.Spec{Route: spec.Route{Kind: "internal", To: rcpt.String()}}
+			if withFee && i > 0 {
+				s.HasFee, s.Fees = true, []spec.Fee{{Recipient: w.K("fee1").String(), IsBPS: true, BPS: 1}}
+			}
+			t := run.Transfer{Pair: pair, Denom: world.BIG, Amount: amt.String(), Sender: w.K("bob").String(), Receiver: OrbiterReceiver(), Spec: s}
+			e.Log(map[string]any{"overflow_history_step": i, "with_fee": withFee})
+			o := run.Do(w, ctx, t, run.Mode{Kind: "H"})
+			e.Res.Eval()
+			before := len(e.Res.Violations)
+			MonPanic(e.Res, o)
+			MonC01(e.Res, o)
+			MonC02(e.Res, o)
+			attachSetup(e.Res, before, map[string]any{"history": "transfers of 2^255 ubig over one route until its statistics cannot be updated", "step": i, "with_fee": withFee})
+			if !o.Success() {
+				break
+			}
+			e.Res.Sig("overflow-history|step%d|fee=%v|%s", i, withFee, outcomeClass(o))
+			// the recipient sends everything it got out again
+			got := o.Delta.Of(rcpt.String(), world.BIG)
+			if got.Sign() <= 0 {
+				break
+			}
+			hr := w.Handle(ctx, w.MsgTransfer(pair.A, sdk.NewCoin(world.BIG, sdkmath.NewIntFromBigInt(got)), rcpt.String(), w.K("bob").String(), ""))
+			if hr.Err != nil {
+				break
+			}
+			amt = got
+		}
+	}
+}
+
+// genesisNearLimitC01: a chain whose imported statistics for a route are just below 2^256-1;
+// ordinary packets on that route.
+func genesisNearLimitC01(e *fw.Env, l *Lab) {
+	near := new(big.Int).Sub(MaxU256, big.NewInt(500000)).String()
+	gen := fmt.Sprintf(`{"adapter_genesis":{"params":{"max_passthrough_payload_size":0}},"dispatcher_genesis":{"dispatched_amounts":[{"source_id":{"protocol_id":"PROTOCOL_IBC","counterparty_id":"channel-0"},"destination_id":{"protocol_id":"PROTOCOL_INTERNAL","counterparty_id":"noble"},"denom":"uusdc","amount_dispatched":{"incoming":"%s","outgoing":"%s"}}],"dispatched_counts":[{"source_id":{"protocol_id":"PROTOCOL_IBC","counterparty_id":"channel-0"},"destination_id":{"protocol_id":"PROTOCOL_INTERNAL","counterparty_id":"noble"},"count":"18446744073709551615"}]},"forwarder_genesis":{"paused_protocol_ids":[],"paused_cross_chain_ids":[]},"executor_genesis":{"paused_action_ids":[]}}`, near, near)
+	l2, err := NewLab(world.Config{OrbiterGenesis: []byte(gen)})
+	if err != nil {
+		e.Res.Inconc("near-limit genesis world: %v", err)
+		return
+	}
+	w := l2.W
+	for i := 0; i < 6; i++ {
+		s := &spec.Spec{Route: spec.Route{Kind: "internal", To: w.K("rcpt2").String()}}
+		if i%2 == 1 {
+			s.HasFee, s.Fees = true, []spec.Fee{{Recipient: w.K("fee2").String(), IsBPS: true, BPS: 100}}
+		}
+		t := run.Transfer{Pair: w.Channels[0], Denom: world.USDC, Amount: "1000000", Sender: w.K("bob").String(), Receiver: OrbiterReceiver(), Spec: s}
+		ctx, _ := l2.Base.CacheContext()
+		o := run.Do(w, ctx, t, run.Mode{Kind: "H"})
+		e.Res.Eval()
+		before := len(e.Res.Violations)
+		MonPanic(e.Res, o)
+		MonC01(e.Res, o)
+		MonC02(e.Res, o)
+		attachSetup(e.Res, before, map[string]any{"genesis": "statistics of the route at 2^256-1-500000, count at 2^64-1"})
+		e.Res.Sig("near-limit-genesis|fee=%v|%s", i%2 == 1, outcomeClass(o))
 	}
 }
